@@ -110,16 +110,16 @@ PROPS_ALL["C02"] = dict(cache_prop(
 
 PROPS_ALL["C03"] = cache_prop(
     "C03", "Coq proof (completeness = converse simulation for unbounded caches; step characterisations of insert/maintenance/invalidation on the map view) + lock-step correspondence + no-loss oracle with removal causes + refill probe",
-    "Theorems for the single-threaded cache model, all well-formed states / all histories: without max_capacity every reference-live entry is returned by get/contains_key/iteration (the cache is exactly a map with expiry); a new key that fits is admitted and evicts nothing; maintenance removes an entry only if it is expired or the cache is over capacity; get/contains_key remove nothing else, invalidation removes exactly its targets, updates evict nothing. Concurrent cache (sequential regime, all sync placements, both housekeeping regimes): without max_capacity every entry live under the weak reference (a get extends the idle timer only once maintenance applied it) is returned (s_trace_complete_all); a maintenance run on a quiescent state removes an entry only if expired or over capacity; a pending fresh insert that fits is admitted by the next maintenance run and evicts nothing. PARTIAL: multi-threaded schedules are covered by the no-loss oracle and the refill probe after quiescence of every explored schedule, not by a theorem." + TIE)
+    "Theorems for the single-threaded cache model, all well-formed states / all histories: without max_capacity every reference-live entry is returned by get/contains_key/iteration (the cache is exactly a map with expiry); a new key that fits is admitted and evicts nothing; maintenance removes an entry only if it is expired or the cache is over capacity; get/contains_key remove nothing else, invalidation removes exactly its targets, updates evict nothing. Concurrent cache (sequential regime, all sync placements, both housekeeping regimes): without max_capacity every entry live under the weak reference (a get extends the idle timer only once maintenance applied it) is returned (s_trace_complete_all); a maintenance run on a quiescent state removes an entry only if expired or over capacity; a pending fresh insert that fits is admitted by the next maintenance run and evicts nothing. PARTIAL: multi-threaded schedules are covered by the no-loss oracle and the refill probe after quiescence of every explored schedule, not by a theorem. OPERATION LEVEL (Sync/SEndToEnd.v): fresh insert followed by the maintenance run, both housekeeping regimes, stated on the quiescent state before the insert - a key that fits is in the cache afterwards and nothing else changed (s_insert_sync_outcome)." + TIE)
 PROPS_ALL["C04"] = cache_prop(
     "C04", "Coq proof (accounting invariant + step characterisations: weighted size never grows beyond capacity except by an in-place update, maintenance removes the excess) + lock-step correspondence on counters/weights + capacity oracle",
-    "Theorems for the single-threaded cache model, every operation from every well-formed state: weighted_size (= physical resident weight, C10) never grows beyond max(capacity, previous) except by the weight growth of an in-place update; the maintenance every operation starts with brings it within capacity or evicts a whole batch; a fresh insert heavier than the capacity is never retained and touches nothing. Concurrent cache (sequential regime): after every maintenance run nothing is queued, weighted_size is the weigher's sum over the map, and it is within capacity or a whole batch was evicted (s_sync_capacity); a pending oversized fresh insert is rejected by the next maintenance run. Between maintenance runs, for all interleavings of any number of inserting threads, the abstract housekeeper/channel/mutex model (Conc/HK.v) bounds the overshoot by the write-queue size plus one entry per thread. PARTIAL: that the real threads follow the protocol model is checked by acceptance of the flag/lock traces on explored schedules and by the capacity oracle after quiescence, not proved." + TIE)
+    "Theorems for the single-threaded cache model, every operation from every well-formed state: weighted_size (= physical resident weight, C10) never grows beyond max(capacity, previous) except by the weight growth of an in-place update; the maintenance every operation starts with brings it within capacity or evicts a whole batch; a fresh insert heavier than the capacity is never retained and touches nothing. Concurrent cache (sequential regime): after every maintenance run nothing is queued, weighted_size is the weigher's sum over the map, and it is within capacity or a whole batch was evicted (s_sync_capacity); a pending oversized fresh insert is rejected by the next maintenance run. Between maintenance runs, for all interleavings of any number of inserting threads, the abstract housekeeper/channel/mutex model (Conc/HK.v) bounds the overshoot by the write-queue size plus one entry per thread. PARTIAL: that the real threads follow the protocol model is checked by acceptance of the flag/lock traces on explored schedules and by the capacity oracle after quiescence, not proved. OPERATION LEVEL (Sync/SEndToEnd.v): update followed by the maintenance run - afterwards the cache is within capacity (or a whole batch was evicted), exactly the shortest LRU prefix covering the excess created by the update being gone (s_update_sync_outcome)." + TIE)
 PROPS_ALL["C12"] = cache_prop(
     "C12", "Coq proof (loop invariants of evict_lru_entries / admit on the LRU list; recency characterisation of every operation) + lock-step correspondence on deque order + LRU-prefix oracle",
-    "Theorems for the single-threaded cache model, all well-formed states, capacities and weights (incl. 0): size eviction removes a prefix of the LRU order, the shortest covering the excess (or a whole batch); admission victims are the shortest LRU prefix reaching the newcomer's weight; insert, update and successful get move the key to the MRU end and nothing else reorders (maintenance, contains_key, invalidation keep the relative order). Concurrent cache with maintenance after every op: the size eviction of a maintenance run on a quiescent state removes the shortest LRU prefix covering the excess (s_evict_lru_prefix) and the admission victims of a pending fresh insert are the shortest LRU prefix reaching its weight (s_pending_insert_outcome). The order itself is the order in which maintenance applies the recorded reads and writes (Sync/SRecency.v): an applied hit and an applied update of an admitted entry move its key to the MRU end and change nothing else (s_pending_hit_outcome, s_pending_update_outcome); a recorded miss or a hit of a not yet admitted entry leaves the order alone; for any number of queued reads the node order afterwards is the fold of move-to-MRU over the hits of admitted entries in queue order (apply_reads_recency)." + TIE)
+    "Theorems for the single-threaded cache model, all well-formed states, capacities and weights (incl. 0): size eviction removes a prefix of the LRU order, the shortest covering the excess (or a whole batch); admission victims are the shortest LRU prefix reaching the newcomer's weight; insert, update and successful get move the key to the MRU end and nothing else reorders (maintenance, contains_key, invalidation keep the relative order). Concurrent cache with maintenance after every op: the size eviction of a maintenance run on a quiescent state removes the shortest LRU prefix covering the excess (s_evict_lru_prefix) and the admission victims of a pending fresh insert are the shortest LRU prefix reaching its weight (s_pending_insert_outcome). The order itself is the order in which maintenance applies the recorded reads and writes (Sync/SRecency.v): an applied hit and an applied update of an admitted entry move its key to the MRU end and change nothing else (s_pending_hit_outcome, s_pending_update_outcome); a recorded miss or a hit of a not yet admitted entry leaves the order alone; for any number of queued reads the node order afterwards is the fold of move-to-MRU over the hits of admitted entries in queue order (apply_reads_recency). OPERATION LEVEL (Sync/SEndToEnd.v, both housekeeping regimes, no expiry configured): the operation and the maintenance run after it, composed and stated on the quiescent state before the operation - s_insert_sync_outcome (fresh insert; sync: no capacity / fits / oversized / TinyLFU admitted with exactly the shortest LRU prefix evicted / rejected with nothing touched, the estimates being those before the insert), s_get_sync_outcome and s_miss_sync_outcome (a hit moves the key to the MRU end and changes nothing else; a miss changes nothing), s_update_sync_outcome (the updated key moves to the MRU end with its new weight and the shortest LRU prefix covering the excess is evicted)." + TIE)
 PROPS_ALL["C13"] = cache_prop(
     "C13", "Coq proof (admit loop = declarative TinyLFU rule on the LRU triples, early exit shown irrelevant) + lock-step correspondence incl. sketch words + prediction oracle from the implementation's own estimates",
-    "Theorem for the single-threaded cache model, all well-formed states/configurations/hashers: a new key that does not fit (and is not oversized) is admitted iff the shortest LRU prefix with weight >= its own exists and its estimate is strictly greater than the summed estimates of that prefix; if admitted exactly that prefix is evicted, otherwise no resident is touched; an oversized newcomer is rejected without touching anything. Scan resistance and 'popular newcomer gets in' are instances. Concurrent cache with maintenance after every op: the same statement for the pending write op of a fresh insert applied by the next maintenance run (s_pending_insert_outcome: no capacity / fits / oversized / TinyLFU admitted with exactly the prefix evicted / rejected with no resident touched)." + TIE)
+    "Theorem for the single-threaded cache model, all well-formed states/configurations/hashers: a new key that does not fit (and is not oversized) is admitted iff the shortest LRU prefix with weight >= its own exists and its estimate is strictly greater than the summed estimates of that prefix; if admitted exactly that prefix is evicted, otherwise no resident is touched; an oversized newcomer is rejected without touching anything. Scan resistance and 'popular newcomer gets in' are instances. Concurrent cache with maintenance after every op: the same statement for the pending write op of a fresh insert applied by the next maintenance run (s_pending_insert_outcome: no capacity / fits / oversized / TinyLFU admitted with exactly the prefix evicted / rejected with no resident touched). OPERATION LEVEL (Sync/SEndToEnd.v, both housekeeping regimes, no expiry configured): the operation and the maintenance run after it, composed and stated on the quiescent state before the operation - s_insert_sync_outcome (fresh insert; sync: no capacity / fits / oversized / TinyLFU admitted with exactly the shortest LRU prefix evicted / rejected with nothing touched, the estimates being those before the insert), s_get_sync_outcome and s_miss_sync_outcome (a hit moves the key to the MRU end and changes nothing else; a miss changes nothing), s_update_sync_outcome (the updated key moves to the MRU end with its new weight and the shortest LRU prefix covering the excess is evicted)." + TIE)
 
 PROPS_ALL["C09"] = dict(cache_prop(
     "C09", "Coq proof (sequential: every step of the concurrent-cache model returns Ok, fuel of the retry loop never exhausted; concurrent: invariants, deadlock freedom and fair termination of an abstract housekeeper/channel/mutex protocol model, all interleavings) + controlled-scheduler exploration with termination oracle and acceptance of flag/lock traces + single-thread bursts",
